@@ -2412,6 +2412,88 @@ PROPS["C16"] = {
 
 
 # ---------------------------------------------------------------------------------------------
+# hand-built trees and the Value API, added to the properties whose theorems quantify over EVERY tree / value
+# ---------------------------------------------------------------------------------------------
+HAND_VARS0 = "61=I3,62=F4004000000000000,63=S7879,78=B1,79=T(I1,I2)"
+
+
+def hand_cases(rng, n):
+    out = []
+    for _ in range(n):
+        t = G.rand_hand_tree(rng, rng.randint(0, 4))
+        text = G.hand_text(t)
+        pre = G.hand_preorder(t)
+        ident = lambda o: o.split(":")[1] if o.startswith(("Write:", "Read:", "Fn:")) else None
+        out.append(("HAND\t" + text, {"kind": "hand", "text": text, "preorder": ",".join(pre),
+                                       "ids": ",".join(ident(o) for o in pre if ident(o) is not None),
+                                       "vids": ",".join(ident(o) for o in pre if o.startswith(("Write:", "Read:"))),
+                                       "assign": G.hand_has_assign(t), "bad_arity": G.hand_bad_arity(t), "roots_small": G.hand_roots_small(t)}))
+    return out
+
+
+def hand_fields(out):
+    return dict(re.findall(r"(\w+)=(\S*)", out)), dict(re.findall(r"(\w+)[\[{]([^\]}]*)[\]}]", out))
+
+
+def hand_oracle(which):
+    def o(case, out, model_out):
+        m = case[1]
+        if m.get("kind") != "hand":
+            return None
+        if out.startswith("PANIC"):
+            return "panic on the hand-built tree %s: %s" % (m["text"], out) if which == "C01" else None
+        kv, lists = hand_fields(out)
+        ro = re.search(r"ro=(.*?) rolog\[", out).group(1)
+        mt = re.search(r"mut=(.*?) vars\{", out).group(1)
+        if which == "C14":
+            if lists.get("nodes") != m["preorder"] or lists.get("ops") != m["preorder"]:
+                return "iter() / iter_operators_mut() of the hand-built tree %s visit [%s] / [%s], the pre-order of its proper descendants is [%s]" % (m["text"], lists.get("nodes"), lists.get("ops"), m["preorder"])
+            if lists.get("ids") != m["ids"] or lists.get("vids") != m["vids"]:
+                return "identifier iterators of the hand-built tree %s list [%s] / [%s], expected [%s] / [%s]" % (m["text"], lists.get("ids"), lists.get("vids"), m["ids"], m["vids"])
+        if which == "C11" and not m["assign"]:
+            if ro != mt or lists.get("rolog") != lists.get("mutlog") or lists.get("vars") != HAND_VARS0:
+                return "the hand-built tree %s has no assignment operator but eval_with_context gives %s [%s] and eval_with_context_mut gives %s [%s] with variables {%s}" % (m["text"], ro, lists.get("rolog"), mt, lists.get("mutlog"), lists.get("vars"))
+        if which == "C13" and m["bad_arity"] and m["roots_small"]:
+            if ro.startswith("OK") or mt.startswith("OK"):
+                return "the hand-built tree %s has an operator with the wrong number of operands but evaluates: %s / %s" % (m["text"], ro, mt)
+        return None
+    return o
+
+
+def with_hand(pid, count, vals=False):
+    P = PROPS[pid]
+    base_gen, base_oracle = P["gen"], P.get("oracle")
+    ho = hand_oracle(pid)
+
+    def gen(tier, rng):
+        def chunks_of(x):
+            if isinstance(x, list):
+                yield x
+            else:
+                yield from x
+        yield from chunks_of(base_gen(tier, rng))
+        extra = hand_cases(rng, count if tier == "quick" else count * 20)
+        if vals:
+            for v in G.pool() + [G.rand_value(rng) for _ in range(300)]:
+                extra.append(("VAL\t" + v, {"kind": "value-api"}))
+        yield extra
+
+    def oracle(case, out, model_out):
+        if case[1].get("kind") == "hand":
+            return ho(case, out, model_out)
+        return base_oracle(case, out, model_out) if base_oracle else None
+
+    P["gen"], P["oracle"] = gen, oracle
+    P["rule"] += "; plus random HAND-BUILT trees of any shape (through operator_mut / children_mut: wrong arities, roots with several children, write leaves anywhere) evaluated read-only and mutably and traversed by the iterators" + ("; plus every public accessor / conversion of Value on the edge-value pool" if vals else "")
+
+
+with_hand("C01", 6000, vals=True)
+with_hand("C11", 4000)
+with_hand("C13", 4000)
+with_hand("C14", 4000)
+
+
+# ---------------------------------------------------------------------------------------------
 # thorough tier: the full-size first chunk where a generator has one, then many more quick-sized chunks
 # drawn from the same PRNG stream (fresh random cases every time; fixed parts repeat and are counted once)
 # ---------------------------------------------------------------------------------------------
